@@ -1125,4 +1125,71 @@ theorem closeFit_vinv (S : Schema) (hdet : DetS S) (hf : FillersOK S) (hleaf : P
       show min g lv.depth + (lv.depth - min g lv.depth + (lv.move.depth - lv.depth)) = lv.move.depth by omega] at this
     exact this
 
+/-! ### `replace_step` as a whole -/
+
+/-- **the payload of every step `replace_step` emits for a closed slice of valid leaf / text nodes is valid** -/
+theorem replaceStep_inline_valid (S : Schema) (hdet : DetS S) (hfill : FillersOK S) (hw : WrapOK S)
+    (hlab : LabelsOK S) (hleaf : PM.FromDom.LeafOk S) (hts : TextStableP S) (hcl : Closable S)
+    (doc : Node) (f t : Nat) (sl : Slice) (hsl : sl.inlineLeaves S = true) (hslv : S.checkKids sl.content = true)
+    (hv : S.checkNode doc = true) (hattrs : S.nodeAttrsOK doc = true) (st : Step)
+    (h : replaceStep S doc f t sl = .ok (some st)) :
+    ∃ sl', st.sliceOf = some sl' ∧ openValid S sl'.openStart sl'.openEnd sl'.content = true := by
+  simp only [Slice.inlineLeaves, Bool.and_eq_true, beq_iff_eq, List.all_eq_true, decide_eq_true_eq] at hsl
+  obtain ⟨⟨hos, hoe⟩, hall⟩ := hsl
+  unfold replaceStep at h
+  split at h
+  · simp [pure, Except.pure] at h
+  · split at h
+    · rename_i rf rt hf ht
+      split at h
+      · simp [throw, throwThe, MonadExceptOf.throw] at h
+      · have := pure_ok h
+        simp only [Option.some.injEq] at this
+        subst this
+        refine ⟨sl, rfl, ?_⟩
+        rw [hos, hoe]
+        simpa [openValid, rightOpenValid] using hslv
+      · obtain ⟨st0, h0, hu, hfr, hlen, hsp, hsz⟩ := fitInit_ok S hf hv sl
+        have inv0 : FitLoopInv S rf.depth st0 := by
+          refine ⟨hfr, ?_, by rw [hlen, Nat.add_sub_cancel]; exact hsp, ?_, ?_, by rw [hu]; exact hos,
+            by rw [hu]; exact hoe, by rw [hlen, hsz]; omega⟩
+          · intro h; rw [h] at hlen; simp at hlen
+          · intro n hn; rw [hu] at hn; exact (hall n hn).1
+          · intro n hn; rw [hu] at hn; exact (hall n hn).2
+        have hp0 := fitInit_pureV S hf hv sl st0 h0
+        have hv0 : VInv S rf.depth rf.depth st0.frontier st0.placed := by
+          refine ⟨Nat.le_refl _, by rw [hlen]; omega, [], hp0, ?_⟩
+          obtain ⟨it, hit⟩ := list_one (st0.frontier.drop rf.depth) (by rw [List.length_drop, hlen]; omega)
+          rw [hit, Nat.sub_self]
+          exact ⟨by simp [leftOpenValid], fun hh => by cases hh⟩
+        have hu0 : ∀ n ∈ st0.unplaced.content, S.checkNode n = true := by
+          rw [hu]; exact (checkKids_iff S _).1 hslv
+        obtain ⟨st1, g1, hl, inv1, hv1⟩ := fitLoop_ok_vinv S hdet hfill hw hlab hleaf hts hcl rf.depth (fitFuel S sl)
+          rf.depth st0 inv0 hv0 hu0 (by
+            have := fitFuel_enough S st0
+            rw [hu] at this
+            rw [hu]; exact this)
+        unfold fitterFit at h
+        rw [FM.bind_eq h0, FM.bind_eq hl] at h
+        obtain ⟨mi, _, h⟩ := FM.bind_ok h
+        simp only at h
+        obtain ⟨target, htg, h⟩ := FM.bind_ok h
+        obtain ⟨c, hc, h⟩ := FM.bind_ok h
+        cases c with
+        | none => simp [pure, Except.pure] at h
+        | some c =>
+          simp only at h
+          have hpt : ∃ pt, doc.resolve pt = some target := by
+            cases mi with
+            | none =>
+              have := pure_ok htg
+              subst this
+              exact ⟨t, ht⟩
+            | some p => exact ⟨p, liftRaise_ok htg⟩
+          obtain ⟨pt, hpt⟩ := hpt
+          have hcv := closeFit_vinv S hdet hfill hleaf hts hcl hpt hattrs st1.frontier st1.placed rf.depth g1
+            inv1.frok inv1.sp hv1 c.1 c.2 hc
+          exact fitEmit_valid S rf rt mi _ c.1 c.2 st h hcv
+    · simp [throw, throwThe, MonadExceptOf.throw] at h
+
 end PM
